@@ -9,6 +9,7 @@ methods over the DBus bus.
 from twisted.internet import defer, reactor
 from twisted.internet.error import ConnectError
 from twisted.internet.protocol import Factory
+from twisted.python import log
 
 import txdbus.protocol
 from txdbus import (
@@ -106,7 +107,12 @@ class DBusClientConnection (txdbus.protocol.BasicDBusProtocol):
         # A callback may unregister itself (or register another one) while
         # it runs: walk a copy so that no later callback is skipped.
         for cb in list(self._dcCallbacks):
-            cb(self, reason)
+            # A callback that raises must not keep the remaining callbacks,
+            # the pending calls and the proxies from being told.
+            try:
+                cb(self, reason)
+            except Exception:
+                log.err()
 
         # An errback may issue a new call (a retry): walk the table as it was
         # when the connection was lost, not the live dictionary.
